@@ -1168,6 +1168,63 @@ func ruleStrictUpper(c *Ctx, r *Report, rule string, scope func(*ssa.Function) b
 		return false
 	}
 	n := 0
+	judge := func(f *ssa.Function, idx *int, bo *ssa.BinOp, X, Y ssa.Value, rejTrue, rejFalse bool, suffix string) {
+		switch bo.Op {
+		case token.LSS, token.LEQ, token.GTR, token.GEQ:
+		default:
+			return
+		}
+		if rejTrue == rejFalse {
+			return
+		}
+		sx, sy := backSlice(c, X, 1), backSlice(c, Y, 1)
+		op := bo.Op
+		var qs map[depNode]bool
+		switch {
+		case dependsOnLimit(sy) && !dependsOnLimit(sx):
+			qs = sx
+		case dependsOnLimit(sx) && !dependsOnLimit(sy):
+			qs = sy
+			op = map[token.Token]token.Token{token.LSS: token.GTR, token.LEQ: token.GEQ, token.GTR: token.LSS, token.GEQ: token.LEQ}[op]
+		default:
+			return
+		}
+		if !hasParam(qs) {
+			return
+		}
+		// against a data length only an exclusive END (a sum of two parameter-derived quantities) is judged:
+		// a start offset is an index and `start >= len` is right
+		limSl := sy
+		if qs != nil && dependsOnLimit(sx) && !dependsOnLimit(sy) {
+			limSl = sx
+		}
+		isCount := sliceHas(limSl, "field", "StszBox.SampleNumber") || sliceHas(limSl, "call", "GetNrSamples")
+		if !isCount {
+			q := X
+			if dependsOnLimit(sx) && !dependsOnLimit(sy) {
+				q = Y
+			}
+			if !isParamSum(c, q, 0) {
+				return
+			}
+		}
+		if !rejTrue {
+			// acceptance form: negate
+			op = map[token.Token]token.Token{token.LSS: token.GEQ, token.LEQ: token.GTR, token.GTR: token.LEQ, token.GEQ: token.LSS}[op]
+		}
+		// now: reject when  quantity op limit
+		if op != token.GTR && op != token.GEQ {
+			return // a lower-bound test
+		}
+		n++
+		*idx++
+		key := fmt.Sprintf("%s:upper-bound#%d%s", SSAFuncName(f), *idx, suffix)
+		if op == token.GTR {
+			r.OK(rule, key, c.Pos(bo.Pos()), "rejected only when strictly beyond the count / length")
+		} else {
+			r.Bad(rule, key, c.Pos(bo.Pos()), "rejected when EQUAL to the sample count / data length: the last sample, or a range ending at the last byte, is refused")
+		}
+	}
 	for _, f := range c.RepoFuncs(nil) {
 		if f.Synthetic != "" || !scope(f) || strings.HasSuffix(c.Fset.Position(f.Pos()).Filename, "_test.go") {
 			continue
@@ -1185,62 +1242,15 @@ func ruleStrictUpper(c *Ctx, r *Report, rule string, scope func(*ssa.Function) b
 			if !ok {
 				continue
 			}
-			switch bo.Op {
-			case token.LSS, token.LEQ, token.GTR, token.GEQ:
-			default:
-				continue
+			judge(f, &idx, bo, bo.X, bo.Y, blockRejects(b.Succs[0]), blockRejects(b.Succs[1]), "")
+		}
+		// comparisons moved into an unexported predicate helper are judged with each call site's arguments
+		cidx := map[*ssa.Function]*int{}
+		for _, lc := range liftedComparisons(c, f) {
+			if cidx[lc.caller] == nil {
+				cidx[lc.caller] = new(int)
 			}
-			rejTrue, rejFalse := blockRejects(b.Succs[0]), blockRejects(b.Succs[1])
-			if rejTrue == rejFalse {
-				continue
-			}
-			sx, sy := backSlice(c, bo.X, 1), backSlice(c, bo.Y, 1)
-			op := bo.Op
-			var qs map[depNode]bool
-			switch {
-			case dependsOnLimit(sy) && !dependsOnLimit(sx):
-				qs = sx
-			case dependsOnLimit(sx) && !dependsOnLimit(sy):
-				qs = sy
-				op = map[token.Token]token.Token{token.LSS: token.GTR, token.LEQ: token.GEQ, token.GTR: token.LSS, token.GEQ: token.LEQ}[op]
-			default:
-				continue
-			}
-			if !hasParam(qs) {
-				continue
-			}
-			// against a data length only an exclusive END (a sum of two parameter-derived quantities) is judged:
-			// a start offset is an index and `start >= len` is right
-			limSl := sy
-			if qs != nil && dependsOnLimit(sx) && !dependsOnLimit(sy) {
-				limSl = sx
-			}
-			isCount := sliceHas(limSl, "field", "StszBox.SampleNumber") || sliceHas(limSl, "call", "GetNrSamples")
-			if !isCount {
-				q := bo.X
-				if dependsOnLimit(sx) && !dependsOnLimit(sy) {
-					q = bo.Y
-				}
-				if !isParamSum(c, q, 0) {
-					continue
-				}
-			}
-			if !rejTrue {
-				// acceptance form: negate
-				op = map[token.Token]token.Token{token.LSS: token.GEQ, token.LEQ: token.GTR, token.GTR: token.LEQ, token.GEQ: token.LSS}[op]
-			}
-			// now: reject when  quantity op limit
-			if op != token.GTR && op != token.GEQ {
-				continue // a lower-bound test
-			}
-			n++
-			idx++
-			key := fmt.Sprintf("%s:upper-bound#%d", SSAFuncName(f), idx)
-			if op == token.GTR {
-				r.OK(rule, key, c.Pos(bo.Pos()), "rejected only when strictly beyond the count / length")
-			} else {
-				r.Bad(rule, key, c.Pos(bo.Pos()), "rejected when EQUAL to the sample count / data length: the last sample, or a range ending at the last byte, is refused")
-			}
+			judge(lc.caller, cidx[lc.caller], lc.bo, lc.X, lc.Y, lc.rejTrue, lc.rejFalse, " via "+f.Name())
 		}
 	}
 	return n
@@ -2643,4 +2653,185 @@ func knownTrue(v ssa.Value, at *ssa.BasicBlock) bool {
 		}
 	}
 	return false
+}
+
+// ruleEPBReader (O-EPBR): in bits.EBSPReader.Read, on the path that drops an emulation prevention byte (the arm
+// taken when the byte read equals 3), the zero counter is stored 0 before it can be incremented again: the byte
+// after 00 00 03 starts a fresh run. Without the reset 00 00 03 00 00 03 leaves the counter at 3 and the second
+// prevention byte is delivered as data.
+func ruleEPBReader(c *Ctx, r *Report) {
+	f := c.ssaFunc(r, "O-EPBR", "bits", "EBSPReader.Read")
+	if f == nil {
+		return
+	}
+	key := "bits.EBSPReader.Read:reset-after-epb"
+	var skip *ssa.BasicBlock
+	for _, b := range f.Blocks {
+		if len(b.Instrs) == 0 {
+			continue
+		}
+		ifi, ok := b.Instrs[len(b.Instrs)-1].(*ssa.If)
+		if !ok {
+			continue
+		}
+		bo, ok := ifi.Cond.(*ssa.BinOp)
+		if !ok || bo.Op != token.EQL {
+			continue
+		}
+		for i, o := range []ssa.Value{bo.X, bo.Y} {
+			other := []ssa.Value{bo.Y, bo.X}[i]
+			if cs, ok := constSet(o, 0); ok && len(cs) == 1 && cs[0] == 3 && typeBits(other.Type()) == 8 {
+				skip = b.Succs[0]
+			}
+		}
+	}
+	if skip == nil {
+		r.Undecided("O-EPBR", key, c.Pos(f.Pos()), "the comparison of the byte read with 3 was not found")
+		return
+	}
+	isZC := func(addr ssa.Value) bool {
+		fa, ok := addr.(*ssa.FieldAddr)
+		return ok && fieldNameOf(fa) == "zeroCount"
+	}
+	seen := map[*ssa.BasicBlock]bool{}
+	stack := []*ssa.BasicBlock{skip}
+	var badPos token.Pos
+	for len(stack) > 0 && !badPos.IsValid() {
+		x := stack[len(stack)-1]
+		stack = stack[:len(stack)-1]
+		if seen[x] {
+			continue
+		}
+		seen[x] = true
+		reset := false
+		for _, ins := range x.Instrs {
+			st, ok := ins.(*ssa.Store)
+			if !ok || !isZC(st.Addr) {
+				continue
+			}
+			if cv, ok := st.Val.(*ssa.Const); ok && cv.Value != nil && cv.Value.ExactString() == "0" {
+				reset = true
+				break
+			}
+			if bo, ok := st.Val.(*ssa.BinOp); ok && bo.Op == token.ADD {
+				badPos = st.Pos()
+				break
+			}
+		}
+		if !reset && !badPos.IsValid() {
+			stack = append(stack, x.Succs...)
+		}
+	}
+	if badPos.IsValid() {
+		r.Bad("O-EPBR", key, c.Pos(badPos), "after an emulation prevention byte is dropped the zero counter can be incremented without having been reset: a second 00 00 03 right after the first is not recognised")
+	} else {
+		r.OK("O-EPBR", key, c.Pos(firstPos(skip)), "on the path that drops an emulation prevention byte the zero counter is stored 0 before any increment")
+	}
+}
+
+// ---- comparisons in small unexported predicate helpers, seen from their call sites ------------------------
+
+// liftedCmp: a comparison inside an unexported bool-valued helper whose operands are (conversions of) the
+// helper's parameters, with the operands replaced by the arguments of one call site.
+type liftedCmp struct {
+	bo       *ssa.BinOp
+	X, Y     ssa.Value // caller-side values
+	caller   *ssa.Function
+	site     ssa.CallInstruction
+	rejTrue  bool // the true arm of the comparison leads to `return false`
+	rejFalse bool
+}
+
+// predicateHelperSites: f is an unexported function with a single bool result, and at every repository call site
+// the result (possibly negated) is branched on with the arm taken for `false` rejecting. Returns the call sites.
+func predicateHelperSites(c *Ctx, f *ssa.Function) []ssa.CallInstruction {
+	if f.Object() == nil || f.Object().Exported() || f.Signature.Results().Len() != 1 {
+		return nil
+	}
+	if bt, ok := f.Signature.Results().At(0).Type().Underlying().(*types.Basic); !ok || bt.Kind() != types.Bool {
+		return nil
+	}
+	node := c.CallGraph().Nodes[f]
+	if node == nil || len(node.In) == 0 {
+		return nil
+	}
+	var sites []ssa.CallInstruction
+	for _, e := range node.In {
+		if e.Site == nil {
+			return nil
+		}
+		v := e.Site.Value()
+		if v == nil || v.Referrers() == nil {
+			return nil
+		}
+		ok := false
+		var walk func(x ssa.Value, neg bool)
+		walk = func(x ssa.Value, neg bool) {
+			for _, ref := range *x.Referrers() {
+				switch y := ref.(type) {
+				case *ssa.UnOp:
+					if y.Op == token.NOT {
+						walk(y, !neg)
+					}
+				case *ssa.If:
+					// arm taken when the helper returned false
+					arm := y.Block().Succs[1]
+					if neg {
+						arm = y.Block().Succs[0]
+					}
+					if blockRejects(arm) {
+						ok = true
+					}
+				}
+			}
+		}
+		walk(v, false)
+		if !ok {
+			return nil
+		}
+		sites = append(sites, e.Site)
+	}
+	return sites
+}
+
+func liftedComparisons(c *Ctx, f *ssa.Function) []liftedCmp {
+	sites := predicateHelperSites(c, f)
+	if len(sites) == 0 {
+		return nil
+	}
+	paramIdx := func(v ssa.Value) int {
+		v = stripConv(v)
+		for i, p := range f.Params {
+			if v == ssa.Value(p) {
+				return i
+			}
+		}
+		return -1
+	}
+	var out []liftedCmp
+	for _, b := range f.Blocks {
+		if len(b.Instrs) == 0 {
+			continue
+		}
+		ifi, ok := b.Instrs[len(b.Instrs)-1].(*ssa.If)
+		if !ok {
+			continue
+		}
+		bo, ok := ifi.Cond.(*ssa.BinOp)
+		if !ok {
+			continue
+		}
+		ix, iy := paramIdx(bo.X), paramIdx(bo.Y)
+		if ix < 0 || iy < 0 {
+			continue
+		}
+		for _, s := range sites {
+			args := s.Common().Args
+			if ix >= len(args) || iy >= len(args) {
+				continue
+			}
+			out = append(out, liftedCmp{bo, args[ix], args[iy], s.Parent(), s, blockRejects(b.Succs[0]), blockRejects(b.Succs[1])})
+		}
+	}
+	return out
 }
